@@ -107,3 +107,243 @@ Proof.
   { destruct (relabel (snd i) (bfds b)); exact Hb. }
   destruct (relabel (snd i) (bfds b)) as [v' n']. cbn [fst snd] in *. now rewrite E1, E2.
 Qed.
+
+Definition fds_of (items : list citem) : N := fold_right (fun it a => fdcount (snd it) + a) 0 items.
+Lemma fds_of_app a b : fds_of (a ++ b) = fds_of a + fds_of b.
+Proof. unfold fds_of. induction a as [|x a IH]; cbn [app fold_right]; [lia|]. rewrite IH. lia. Qed.
+
+Lemma helper_spec b f b' ok : helper b f = (b', ok) ->
+  (ok = true /\ f b = (b', true)) \/ (ok = false /\ b' = b).
+Proof. unfold helper. destruct (f b) as [b1 [|]]; intros H; injection H as <- <-; [left|right]; auto. Qed.
+
+Lemma push_param_spec be b items i b' ok : represents be b items -> citem_ok (to_str (fst i), snd i) ->
+  fds_of items + fdcount (snd i) <= 2 ^ 32 ->
+  push_param b i = (b', ok) ->
+  if ok then represents be b' (items ++ [(to_str (fst i), snd i)]) else b' = b.
+Proof.
+  intros Hr Hok Hb H. unfold push_param in H. apply helper_spec in H. destruct H as [[-> H]|[-> ->]]; [|reflexivity].
+  eapply push_inner_ok; try eassumption. rewrite render_fds_le. change (fold_right _ 0 ?l) with (fds_of l).
+  rewrite fds_of_app. cbn. lia.
+Qed.
+
+Lemma push_all_spec be : forall l b items b' ok, represents be b items ->
+  Forall (fun i => citem_ok (to_str (fst i), snd i)) l ->
+  fds_of items + fds_of (map (fun i => (to_str (fst i), snd i)) l) <= 2 ^ 32 ->
+  push_all push_param b l = (b', ok) ->
+  ok = true -> represents be b' (items ++ map (fun i => (to_str (fst i), snd i)) l).
+Proof.
+  induction l as [|i l IH]; intros b items b' ok Hr Hall Hb H Hok.
+  - cbn in H. injection H as <- _. cbn. now rewrite app_nil_r.
+  - apply Forall_cons_iff in Hall. destruct Hall as [Hi Hl]. cbn [push_all] in H.
+    destruct (push_param b i) as [b1 ok1] eqn:E1. cbn [map] in Hb. cbn [fds_of fold_right snd] in Hb. fold (fds_of (map (fun i0 => (to_str (fst i0), snd i0)) l)) in Hb.
+    pose proof (push_param_spec be b items i b1 ok1 Hr Hi ltac:(lia) E1) as Hs.
+    destruct ok1; [|injection H as _ <-; discriminate].
+    cbn [map]. replace (items ++ (to_str (fst i), snd i) :: map (fun i0 => (to_str (fst i0), snd i0)) l)
+      with ((items ++ [(to_str (fst i), snd i)]) ++ map (fun i0 => (to_str (fst i0), snd i0)) l) by (now rewrite <- app_assoc).
+    eapply IH; try eassumption. rewrite fds_of_app. cbn. lia.
+Qed.
+
+Lemma push_variant_spec be b items i b' ok : represents be b items ->
+  citem_ok ([c_v], VVariant (fst i) (snd i)) ->
+  fds_of items + fdcount (snd i) <= 2 ^ 32 ->
+  push_variant b i = (b', ok) ->
+  if ok then represents be b' (items ++ [([c_v], VVariant (fst i) (snd i))]) else b' = b.
+Proof.
+  intros [Hbe Hr] [Hty Hss] Hb H. unfold push_variant in H. apply helper_spec in H. destruct H as [[-> H]|[-> ->]]; [|reflexivity].
+  destruct (marshal_t (bbe b) (VVariant (fst i) (snd i)) {| mbuf := bbuf b; mfds := bfds b |}) as [c ok] eqn:Em.
+  injection H as <- ->. split; [exact Hbe|]. cbn [bbe bsig bbuf bfds].
+  rewrite render_snoc. rewrite <- Hr. unfold render_step. cbn [fst snd].
+  rewrite Hbe in Em. cbn [snd] in Hty, Hss.
+  destruct (marshal_t_spec be _ Hty Hss _ _ Em) as [E1 E2]; cbn [mbuf mfds] in *.
+  { rewrite relabel_count. cbn [fdcount].
+    assert (bfds b = fds_of items).
+    { pose proof (render_fds_le be items) as Hf. rewrite <- Hr in Hf. cbn [snd] in Hf. exact Hf. }
+    lia. }
+  destruct (relabel (VVariant (fst i) (snd i)) (bfds b)) as [v' n']. cbn [fst snd] in *. now rewrite E1, E2.
+Qed.
+
+Lemma push_old_param_spec be b items v b' ok : represents be b items -> citem_ok (to_str (ty_of v), v) ->
+  fds_of items + fdcount v <= 2 ^ 32 ->
+  push_old_param b v = (b', ok) ->
+  if ok then represents be b' (items ++ [(to_str (ty_of v), v)]) else b' = b.
+Proof.
+  intros [Hbe Hr] [Hty Hss] Hb H. unfold push_old_param in H. apply helper_spec in H. destruct H as [[-> H]|[-> ->]]; [|reflexivity].
+  unfold push_old_inner in H.
+  destruct (marshal_p (bbe b) 0 v {| mbuf := bbuf b; mfds := bfds b |}) as [c [|]] eqn:Em; [|discriminate].
+  injection H as <-. split; [exact Hbe|]. cbn [bbe bsig bbuf bfds].
+  rewrite render_snoc. rewrite <- Hr. unfold render_step. cbn [fst snd] in *.
+  rewrite Hbe in Em.
+  destruct (marshal_p_spec be _ Hty Hss 0 _ _ Em) as [E1 E2]; cbn [mbuf mfds] in *.
+  { rewrite relabel_count.
+    assert (bfds b = fds_of items).
+    { pose proof (render_fds_le be items) as Hf. rewrite <- Hr in Hf. cbn [snd] in Hf. exact Hf. }
+    lia. }
+  destruct (relabel v (bfds b)) as [v' n']. cbn [fst snd] in *. now rewrite E1, E2.
+Qed.
+
+Lemma push_olds_spec be : forall l b items b' ok, represents be b items ->
+  Forall (fun v => citem_ok (to_str (ty_of v), v)) l ->
+  fds_of items + fds_of (map (fun v => (to_str (ty_of v), v)) l) <= 2 ^ 32 ->
+  push_olds b l = (b', ok) ->
+  ok = true -> represents be b' (items ++ map (fun v => (to_str (ty_of v), v)) l).
+Proof.
+  induction l as [|v l IH]; intros b items b' ok Hr Hall Hb H Hok.
+  - cbn in H. injection H as <- _. cbn. now rewrite app_nil_r.
+  - apply Forall_cons_iff in Hall. destruct Hall as [Hi Hl]. cbn [push_olds] in H.
+    destruct (push_old_param b v) as [b1 ok1] eqn:E1. cbn [map] in Hb. cbn [fds_of fold_right snd] in Hb.
+    fold (fds_of (map (fun v0 => (to_str (ty_of v0), v0)) l)) in Hb.
+    pose proof (push_old_param_spec be b items v b1 ok1 Hr Hi ltac:(lia) E1) as Hs.
+    destruct ok1; [|injection H as _ <-; discriminate].
+    cbn [map]. replace (items ++ (to_str (ty_of v), v) :: map (fun v0 => (to_str (ty_of v0), v0)) l)
+      with ((items ++ [(to_str (ty_of v), v)]) ++ map (fun v0 => (to_str (ty_of v0), v0)) l) by (now rewrite <- app_assoc).
+    eapply IH; try eassumption. rewrite fds_of_app. cbn. lia.
+Qed.
+
+(** one operation *)
+Lemma step_body_spec be b items o b' ok : represents be b items -> op_ok o ->
+  fds_of items + fds_of (items_of o) <= 2 ^ 32 ->
+  step_body b o = (b', ok) ->
+  match o with
+  | Reset => represents be b' []
+  | _ => if ok then represents be b' (items ++ items_of o) else b' = b
+  end.
+Proof.
+  intros Hr Hop Hb H. unfold op_ok in Hop. destruct o as [i|l|l|i|v|l|]; cbn [step_body items_of] in *.
+  - apply Forall_cons_iff in Hop. destruct Hop as [Hi _]. eapply push_param_spec; try eassumption. cbn in Hb. lia.
+  - apply helper_spec in H. destruct H as [[-> H]|[-> ->]]; [|reflexivity].
+    eapply push_all_spec; try eassumption; [|reflexivity].
+    apply Forall_forall. intros i Hin. rewrite Forall_forall in Hop. apply Hop. exact (in_map (fun i0 : item => (to_str (fst i0), snd i0)) l i Hin).
+  - apply helper_spec in H. destruct H as [[-> H]|[-> ->]]; [|reflexivity].
+    eapply push_all_spec; try eassumption; [|reflexivity].
+    apply Forall_forall. intros i Hin. rewrite Forall_forall in Hop. apply Hop. exact (in_map (fun i0 : item => (to_str (fst i0), snd i0)) l i Hin).
+  - apply Forall_cons_iff in Hop. destruct Hop as [Hi _]. eapply push_variant_spec; try eassumption. cbn in Hb. cbn [fdcount] in Hb. lia.
+  - apply Forall_cons_iff in Hop. destruct Hop as [Hi _]. eapply push_old_param_spec; try eassumption. cbn in Hb. lia.
+  - apply helper_spec in H. destruct H as [[-> H]|[-> ->]]; [|reflexivity].
+    eapply push_olds_spec; try eassumption; [|reflexivity].
+    apply Forall_forall. intros v Hin. rewrite Forall_forall in Hop. apply Hop. exact (in_map (fun v0 : val => (to_str (ty_of v0), v0)) l v Hin).
+  - injection H as <- _. destruct Hr as [Hbe _]. split; [exact Hbe|reflexivity].
+Qed.
+
+(** any history *)
+Theorem body_history be : forall ops b items b' oks,
+  represents be b items -> Forall op_ok ops ->
+  fds_of items + total_fds ops <= 2 ^ 32 ->
+  run_body b ops = (b', oks) ->
+  represents be b' (committed ops oks items) /\ length oks = length ops.
+Proof.
+  induction ops as [|o ops IH]; intros b items b' oks Hr Hall Hb H.
+  - cbn in H. injection H as <- <-. cbn. auto.
+  - apply Forall_cons_iff in Hall. destruct Hall as [Ho Hops]. cbn [run_body] in H.
+    destruct (step_body b o) as [b1 ok] eqn:E1. destruct (run_body b1 ops) as [b2 oks'] eqn:E2.
+    injection H as <- <-. cbn [total_fds fold_right] in Hb. fold (total_fds ops) in Hb. fold (fds_of (items_of o)) in Hb.
+    pose proof (step_body_spec be b items o b1 ok Hr Ho ltac:(lia) E1) as Hs.
+    assert (Hnr : (o = Reset /\ represents be b1 []) \/
+                  (committed (o :: ops) (ok :: oks') items = committed ops oks' (if ok then items ++ items_of o else items)
+                   /\ (if ok then represents be b1 (items ++ items_of o) else b1 = b))).
+    { destruct o; try (right; split; [reflexivity|exact Hs]). left. auto. }
+    cbn [length]. destruct Hnr as [[-> Hs']|[Ec Hs']].
+    + cbn [committed]. destruct (IH b1 [] b2 oks' Hs' Hops ltac:(cbn; lia) E2) as [Hf Hl]. split; [exact Hf|now rewrite Hl].
+    + rewrite Ec. destruct ok.
+      * destruct (IH b1 _ b2 oks' Hs' Hops ltac:(rewrite fds_of_app; lia) E2) as [Hf Hl]. split; [exact Hf|now rewrite Hl].
+      * subst b1. destruct (IH b _ b2 oks' Hr Hops ltac:(lia) E2) as [Hf Hl]. split; [exact Hf|now rewrite Hl].
+Qed.
+
+Corollary body_from_new be ops b' oks : Forall op_ok ops -> total_fds ops <= 2 ^ 32 ->
+  run_body (new_body be) ops = (b', oks) ->
+  (bsig b', bbuf b', bfds b') = render be (committed ops oks []).
+Proof.
+  intros Hall Hb H.
+  assert (R0 : represents be (new_body be) []) by (split; reflexivity).
+  assert (B0 : fds_of [] + total_fds ops <= 2 ^ 32) by (cbn; lia).
+  destruct (body_history be ops (new_body be) [] b' oks R0 Hall B0 H) as [[_ Hr] _]. exact Hr.
+Qed.
+
+(** a failed operation leaves no trace; reset leaves nothing attached *)
+Lemma step_fail_unchanged b o b' : step_body b o = (b', false) -> b' = b.
+Proof.
+  destruct o as [i|l|l|i|v|l|]; cbn [step_body]; intros H;
+    try (apply helper_spec in H; destruct H as [[E _]|[_ ->]]; [discriminate|reflexivity]).
+  - unfold push_param in H. apply helper_spec in H. destruct H as [[E _]|[_ ->]]; [discriminate|reflexivity].
+  - unfold push_variant in H. apply helper_spec in H. destruct H as [[E _]|[_ ->]]; [discriminate|reflexivity].
+  - unfold push_old_param in H. apply helper_spec in H. destruct H as [[E _]|[_ ->]]; [discriminate|reflexivity].
+  - discriminate.
+Qed.
+Lemma step_reset_empty b : fst (step_body b Reset) = {| bbe := bbe b; bsig := []; bbuf := []; bfds := 0 |}.
+Proof. reflexivity. Qed.
+
+(** ** the parser *)
+Lemma get_fail_unchanged p e p' r : get p e = Ok (p', r) -> (forall v, r <> GVal v) -> p' = p.
+Proof.
+  unfold get. destruct (get_next_sig p) as [[s|]| | | |]; cbn [bind]; try discriminate.
+  - destruct (has_sig e s) as [hs| | | |]; cbn [bind]; try discriminate.
+    destruct (negb hs); [intros H _; now injection H as <- _|].
+    destruct (unmarshal_t _ _ _ _) as [[v c]| | | |]; try discriminate; intros H Hr; injection H as <- <-;
+      [now elim (Hr v)|reflexivity].
+  - intros H _. now injection H as <- _.
+Qed.
+
+Lemma get_param_fail_unchanged p p' r : get_param p = Ok (p', r) -> (forall v, r <> GVal v) -> p' = p.
+Proof.
+  unfold get_param. destruct (get_next_sig p) as [[s|]| | | |]; cbn [bind]; try discriminate.
+  - destruct (parse_description s) as [[|t ts]| | | |]; try discriminate.
+    + destruct (unmarshal_p _ _ _ _) as [[v c]| | | |]; try discriminate; intros H Hr; injection H as <- <-;
+        [now elim (Hr v)|reflexivity].
+    + intros H _. now injection H as <- _.
+  - intros H _. now injection H as <- _.
+Qed.
+
+Lemma get_n_fail_unchanged p es p' : get_n p es = Ok (p', None) -> p' = p.
+Proof.
+  unfold get_n. destruct (sigs_left p) as [n| | | |]; cbn [bind]; try discriminate.
+  destruct (n <? len es); [intros H; now injection H as <-|].
+  destruct (get_all p es []) as [[p1 [vs|]]| | | |]; cbn [bind]; try discriminate; intros H; now injection H as <-.
+Qed.
+
+(* where the parser stands: after the first k types of the body signature *)
+Definition parser_at (p : parser) (before : list ty) (t : ty) (after : list ty) : Prop :=
+  bsig (pbody p) = to_str_list (before ++ t :: after) /\ psig_idx p = len (to_str_list before).
+
+Lemma to_str_list_app a b : to_str_list (a ++ b) = to_str_list a ++ to_str_list b.
+Proof. unfold to_str_list. apply flat_map_app. Qed.
+
+Lemma get_next_sig_at p before t after : parser_at p before t after -> get_next_sig p = Ok (Some (to_str t)).
+Proof.
+  intros [Hs Hi]. unfold get_next_sig. rewrite Hs, Hi, to_str_list_app, len_app.
+  assert (Hpos : 0 < len (to_str_list (t :: after))).
+  { unfold to_str_list. cbn [flat_map]. rewrite len_app. destruct (to_str_nonempty t) as (? & ? & ->). rewrite len_cons. lia. }
+  destruct (N.leb_spec (len (to_str_list before) + len (to_str_list (t :: after))) (len (to_str_list before))) as [|_]; [lia|].
+  rewrite skipnN_app_len. unfold to_str_list at 1. cbn [flat_map]. fold (to_str_list after).
+  pose proof (sig_next_type t (to_str_list after)) as Hn. unfold sig_next in Hn. rewrite Hn. reflexivity.
+Qed.
+
+Lemma ty_eqb_eq a : forall b, ty_eqb a b = true -> a = b.
+Proof.
+  induction a as [x|e IHe|ts IHts|k v IHv|] using ty_ind'; intros b H; destruct b as [y|e'|ts'|k' v'|]; try discriminate H; cbn [ty_eqb] in H.
+  - f_equal. now destruct (base_eqb_spec x y).
+  - f_equal. now apply IHe.
+  - f_equal. revert ts' H. induction ts as [|t ts IH]; intros [|t' ts'] H; try discriminate; [reflexivity|].
+    apply andb_prop in H. destruct H as [H1 H2]. apply Forall_cons_iff in IHts. destruct IHts as [Ht Hts].
+    f_equal; [now apply Ht|now apply IH].
+  - apply andb_prop in H. destruct H as [H1 H2]. f_equal; [now destruct (base_eqb_spec k k')|now apply IHv].
+  - reflexivity.
+Qed.
+
+(* requesting a type that does not match the next signature is an error, never a misread *)
+Theorem get_mismatch p e before t after : parser_at p before t after -> erase e <> t ->
+  get p e = Ok (p, GWrongSig).
+Proof.
+  intros Hat Hne. unfold get. rewrite (get_next_sig_at _ _ _ _ Hat). cbn [bind]. rewrite has_sig_exact. cbn [bind].
+  destruct (ty_eqb (erase e) t) eqn:E; [|reflexivity]. apply ty_eqb_eq in E. now elim Hne.
+Qed.
+
+(* a successful get advances the signature index by exactly the type read *)
+Theorem get_success_sig p e before t after p' v : parser_at p before t after ->
+  get p e = Ok (p', GVal v) ->
+  erase e = t /\ psig_idx p' = psig_idx p + len (to_str t) /\ pbody p' = pbody p.
+Proof.
+  intros Hat H. unfold get in H. rewrite (get_next_sig_at _ _ _ _ Hat) in H. cbn [bind] in H.
+  rewrite has_sig_exact in H. cbn [bind] in H.
+  destruct (ty_eqb (erase e) t) eqn:E; cbn [negb] in H; [|discriminate].
+  apply ty_eqb_eq in E.
+  destruct (unmarshal_t _ _ _ _) as [[v0 c]| | | |]; try discriminate. injection H as <- _. cbn. auto.
+Qed.
